@@ -126,6 +126,7 @@ def check_priority_frame_fields(ctx, eng):
 def _rest(ctx, eng):
     m = eng.m
     fsm = eng.fsm
+    check_reassembly(ctx, eng)
     # ---- send_headers priority branch
     fs = m.func(H + 'send_headers')
     paths = eng.I.run(fs)
@@ -294,3 +295,69 @@ def _rest(ctx, eng):
                node=cell[2] if cell else fsm.conn.node)
     from .c07 import check_links
     check_links(eng, ctx)
+
+
+def check_reassembly(ctx, eng):
+    """A header block split over CONTINUATION frames reaches the handlers as
+    the leading HEADERS / PUSH_PROMISE frame object itself (flags and data
+    completed): every other field the parser filled in - the priority
+    fields, the promised stream id, padding - is therefore the one that was
+    received.  Shared by C23 and C01."""
+    fi = eng.m.func('frame_buffer.FrameBuffer._update_header_buffer')
+    bad = []
+    n_end = n_pass = 0
+    for p in cm.normal_paths(eng.I.run(fi)):
+        buffering = cm.fact_polarity(p, ('a', ('p', 'self'),
+                                         '_headers_buffer', 0))
+        if buffering is None:
+            for e in p.events:
+                if e.kind == 'assume':
+                    s = cm.show0(e.cond)
+                    if s == 'self._headers_buffer':
+                        buffering = True
+                    elif s == 'not self._headers_buffer':
+                        buffering = False
+        end = None
+        for e in p.events:
+            if e.kind == 'assume':
+                s = cm.show0(e.cond)
+                if s == "('END_HEADERS' in f.flags)":
+                    end = True
+                elif s == "not ('END_HEADERS' in f.flags)":
+                    end = False
+        v = p.value
+        if buffering and end:
+            n_end += 1
+            lead = (v is not None and v[0] == 'sub' and
+                    cm.attr_chain(v[1]) == 'self._headers_buffer' and
+                    v[2] == T.C(0))
+            if lead:
+                ws = {e.attr for e in p.events if e.kind == 'write'}
+                lost = ws & {'depends_on', 'stream_weight', 'exclusive'}
+                if lost:
+                    bad.append('the completed frame has its priority fields '
+                               'rewritten: %s' % sorted(lost))
+            elif v is not None and v[0] == 'obj':
+                # a copy is as good as the original if it copies the fields
+                f = p.state.objs.get(v, {})
+                for fld in ('depends_on', 'stream_weight', 'exclusive'):
+                    got = f.get(fld)
+                    if got is None or cm.show0(got) != \
+                            'self._headers_buffer[0].%s' % fld:
+                        bad.append('a completed block is returned as a new '
+                                   '%s whose %s is not the leading frame\'s'
+                                   % (v[2], fld))
+            else:
+                bad.append('a completed block is returned as %s, neither '
+                           'the leading frame nor a copy of it'
+                           % cm.show0(v))
+        elif buffering is False and v is not None and v != T.NONE:
+            n_pass += 1
+            if v != ('p', 'f'):
+                bad.append('an unbuffered frame is replaced by %s'
+                           % cm.show0(v))
+    ctx.ob('PAIR.reassembly', fi.qual, 'a reassembled block is the leading '
+           'frame itself', n_end > 0 and n_pass > 0 and not bad,
+           '; '.join(sorted(set(bad))) or 'flags and data completed in '
+           'place; priority fields, promised id and padding untouched',
+           node=fi.node)
